@@ -1,0 +1,370 @@
+//! Verification seams. Compiled only with `--cfg brc20_prog_verif`; never part of a shipped build.
+//!
+//! Nothing in here changes behaviour unless a simulator installs a callback:
+//! * `failpoint`  - called before every persistent RocksDB write; default is a no-op.
+//! * `simhash`    - `HashMap`/`HashSet` newtypes whose iteration order is a function of one seed.
+//! * `sync`       - `RwLock` wrapper that reports acquire/release to an optional scheduler.
+//! * re-exports of crate-private items the simulator drives (engine, database, storage components).
+#![allow(missing_docs)]
+
+use std::cell::RefCell;
+use std::error::Error;
+use std::path::Path;
+
+pub use jsonrpsee;
+
+pub use crate::db::types::{Decode, Encode};
+pub use crate::global::{CONFIG, MAX_FUTURE_TRANSACTION_BLOCKS, MAX_FUTURE_TRANSACTION_NONCES};
+pub use crate::global::{GAS_PER_BYTE, MAX_REORG_HISTORY_SIZE};
+
+#[cfg(feature = "server")]
+pub use crate::api::INDEXER_METHODS;
+#[cfg(feature = "server")]
+pub use crate::db::storage::{
+    BlockCachedDatabase, BlockDatabase, BlockHistoryCache, BlockHistoryCacheData,
+};
+#[cfg(feature = "server")]
+pub use crate::db::Brc20ProgDatabase;
+#[cfg(feature = "server")]
+pub use crate::engine::BRC20ProgEngine;
+#[cfg(feature = "server")]
+pub use crate::global::database::{validate_config_database, ConfigDatabase};
+
+/// (PROTOCOL_VERSION, DB_VERSION) of this build.
+pub fn versions() -> (u32, u32) {
+    (*crate::global::PROTOCOL_VERSION, *crate::global::DB_VERSION)
+}
+
+/// Keys under which the configuration is recorded in the `config` database.
+pub fn config_keys() -> [String; 4] {
+    [
+        crate::global::DB_VERSION_KEY.clone(),
+        crate::global::PROTOCOL_VERSION_KEY.clone(),
+        crate::global::BITCOIN_RPC_NETWORK_KEY.clone(),
+        crate::global::EVM_RECORD_TRACES_KEY.clone(),
+    ]
+}
+
+/// Replace the process-global configuration (what `start()` does first).
+pub fn set_config(config: crate::Brc20ProgConfig) {
+    CONFIG.write_fn_unchecked(|value| {
+        *value = config;
+    });
+}
+
+/// The real JSON-RPC method table over a real engine over the database at `path`, without a socket.
+#[cfg(feature = "server")]
+pub fn rpc_methods(path: &Path) -> Result<jsonrpsee::Methods, Box<dyn Error>> {
+    let engine = BRC20ProgEngine::new(Brc20ProgDatabase::new(path)?);
+    Ok(crate::server::verif_methods(engine))
+}
+
+// ---------------------------------------------------------------------------------------------
+// failpoints
+
+thread_local! {
+    static FAILPOINT: RefCell<Option<Box<dyn FnMut(&'static str) -> Result<(), String>>>> =
+        const { RefCell::new(None) };
+}
+
+/// Install (or clear) the per-thread failpoint callback.
+pub fn set_failpoint(cb: Option<Box<dyn FnMut(&'static str) -> Result<(), String>>>) {
+    FAILPOINT.with(|f| *f.borrow_mut() = cb);
+}
+
+/// Called in front of every persistent write. No callback installed => `Ok(())`.
+pub fn failpoint(site: &'static str) -> Result<(), Box<dyn Error>> {
+    // Take the callback out while it runs so that it may itself open databases.
+    let cb = FAILPOINT.with(|f| f.borrow_mut().take());
+    let Some(mut cb) = cb else {
+        return Ok(());
+    };
+    let result = cb(site);
+    FAILPOINT.with(|f| {
+        let mut slot = f.borrow_mut();
+        if slot.is_none() {
+            *slot = Some(cb);
+        }
+    });
+    result.map_err(|e| e.into())
+}
+
+// ---------------------------------------------------------------------------------------------
+// seeded hash containers
+
+pub mod simhash {
+    use std::borrow::Borrow;
+    use std::hash::{BuildHasher, DefaultHasher, Hash, Hasher};
+    use std::ops::{Deref, DerefMut};
+    use std::sync::atomic::{AtomicU64, Ordering};
+
+    static SEED: AtomicU64 = AtomicU64::new(0);
+
+    /// All maps created after this call iterate in an order determined by `seed`.
+    pub fn set_seed(seed: u64) {
+        SEED.store(seed, Ordering::SeqCst);
+    }
+
+    #[derive(Clone)]
+    pub struct SeededState(u64);
+
+    impl Default for SeededState {
+        fn default() -> Self {
+            SeededState(SEED.load(Ordering::SeqCst))
+        }
+    }
+
+    impl BuildHasher for SeededState {
+        type Hasher = DefaultHasher;
+        fn build_hasher(&self) -> DefaultHasher {
+            let mut h = DefaultHasher::new();
+            h.write_u64(self.0);
+            h
+        }
+    }
+
+    pub struct HashMap<K, V>(std::collections::HashMap<K, V, SeededState>);
+
+    impl<K, V> HashMap<K, V> {
+        pub fn new() -> Self {
+            HashMap(std::collections::HashMap::with_hasher(SeededState::default()))
+        }
+    }
+
+    impl<K, V> Deref for HashMap<K, V> {
+        type Target = std::collections::HashMap<K, V, SeededState>;
+        fn deref(&self) -> &Self::Target {
+            &self.0
+        }
+    }
+
+    impl<K, V> DerefMut for HashMap<K, V> {
+        fn deref_mut(&mut self) -> &mut Self::Target {
+            &mut self.0
+        }
+    }
+
+    impl<K, V> IntoIterator for HashMap<K, V> {
+        type Item = (K, V);
+        type IntoIter = std::collections::hash_map::IntoIter<K, V>;
+        fn into_iter(self) -> Self::IntoIter {
+            self.0.into_iter()
+        }
+    }
+
+    impl<'a, K, V> IntoIterator for &'a HashMap<K, V> {
+        type Item = (&'a K, &'a V);
+        type IntoIter = std::collections::hash_map::Iter<'a, K, V>;
+        fn into_iter(self) -> Self::IntoIter {
+            self.0.iter()
+        }
+    }
+
+    pub struct HashSet<K>(std::collections::HashSet<K, SeededState>);
+
+    impl<K> HashSet<K> {
+        pub fn new() -> Self {
+            HashSet(std::collections::HashSet::with_hasher(SeededState::default()))
+        }
+    }
+
+    impl<K> Deref for HashSet<K> {
+        type Target = std::collections::HashSet<K, SeededState>;
+        fn deref(&self) -> &Self::Target {
+            &self.0
+        }
+    }
+
+    impl<K> DerefMut for HashSet<K> {
+        fn deref_mut(&mut self) -> &mut Self::Target {
+            &mut self.0
+        }
+    }
+
+    impl<K> IntoIterator for HashSet<K> {
+        type Item = K;
+        type IntoIter = std::collections::hash_set::IntoIter<K>;
+        fn into_iter(self) -> Self::IntoIter {
+            self.0.into_iter()
+        }
+    }
+
+    #[allow(dead_code)]
+    fn _assert_lookup<K: Eq + Hash + Borrow<K>, V>(m: &HashMap<K, V>, k: &K) -> bool {
+        m.contains_key(k)
+    }
+}
+
+// ---------------------------------------------------------------------------------------------
+// lock seam
+
+pub mod sync {
+    use std::ops::{Deref, DerefMut};
+    use std::panic::Location;
+    use std::sync::atomic::{AtomicUsize, Ordering};
+    use std::sync::{Arc, LockResult, PoisonError, TryLockError};
+
+    #[derive(Clone, Copy, Debug, PartialEq, Eq)]
+    pub enum Mode {
+        Read,
+        Write,
+    }
+
+    /// What a simulator implements to own the interleaving of lock operations.
+    /// `before_acquire` blocks the calling thread until the scheduler admits it; after it returns
+    /// the real lock must be free for `mode` (the wrapper asserts that with `try_*`).
+    pub trait Scheduler: Send + Sync {
+        fn before_acquire(&self, lock: usize, mode: Mode, site: &'static Location<'static>);
+        fn released(&self, lock: usize, mode: Mode);
+    }
+
+    static SCHED: std::sync::RwLock<Option<Arc<dyn Scheduler>>> = std::sync::RwLock::new(None);
+    static NEXT_ID: AtomicUsize = AtomicUsize::new(1);
+
+    thread_local! {
+        static CONTROLLED: std::cell::Cell<bool> = const { std::cell::Cell::new(false) };
+    }
+
+    /// Install or remove the process-wide scheduler.
+    pub fn set_scheduler(s: Option<Arc<dyn Scheduler>>) {
+        *SCHED.write().unwrap_or_else(|e| e.into_inner()) = s;
+    }
+
+    /// Only threads that opted in are reported to the scheduler.
+    pub fn set_thread_controlled(on: bool) {
+        CONTROLLED.with(|c| c.set(on));
+    }
+
+    fn sched() -> Option<Arc<dyn Scheduler>> {
+        if !CONTROLLED.with(|c| c.get()) {
+            return None;
+        }
+        SCHED.read().unwrap_or_else(|e| e.into_inner()).clone()
+    }
+
+    pub struct RwLock<T> {
+        id: usize,
+        inner: std::sync::RwLock<T>,
+    }
+
+    pub struct RwLockReadGuard<'a, T> {
+        inner: Option<std::sync::RwLockReadGuard<'a, T>>,
+        id: usize,
+        reported: bool,
+    }
+
+    pub struct RwLockWriteGuard<'a, T> {
+        inner: Option<std::sync::RwLockWriteGuard<'a, T>>,
+        id: usize,
+        reported: bool,
+    }
+
+    impl<T> RwLock<T> {
+        pub fn new(t: T) -> Self {
+            RwLock {
+                id: NEXT_ID.fetch_add(1, Ordering::SeqCst),
+                inner: std::sync::RwLock::new(t),
+            }
+        }
+
+        pub fn id(&self) -> usize {
+            self.id
+        }
+
+        #[track_caller]
+        pub fn read(&self) -> LockResult<RwLockReadGuard<'_, T>> {
+            let Some(s) = sched() else {
+                return match self.inner.read() {
+                    Ok(g) => Ok(RwLockReadGuard { inner: Some(g), id: self.id, reported: false }),
+                    Err(e) => Err(PoisonError::new(RwLockReadGuard {
+                        inner: Some(e.into_inner()),
+                        id: self.id,
+                        reported: false,
+                    })),
+                };
+            };
+            s.before_acquire(self.id, Mode::Read, Location::caller());
+            match self.inner.try_read() {
+                Ok(g) => Ok(RwLockReadGuard { inner: Some(g), id: self.id, reported: true }),
+                Err(TryLockError::Poisoned(e)) => Err(PoisonError::new(RwLockReadGuard {
+                    inner: Some(e.into_inner()),
+                    id: self.id,
+                    reported: true,
+                })),
+                Err(TryLockError::WouldBlock) => {
+                    eprintln!("VERIF-HARNESS-ERROR lock model out of sync (read {})", self.id);
+                    std::process::exit(2);
+                }
+            }
+        }
+
+        #[track_caller]
+        pub fn write(&self) -> LockResult<RwLockWriteGuard<'_, T>> {
+            let Some(s) = sched() else {
+                return match self.inner.write() {
+                    Ok(g) => Ok(RwLockWriteGuard { inner: Some(g), id: self.id, reported: false }),
+                    Err(e) => Err(PoisonError::new(RwLockWriteGuard {
+                        inner: Some(e.into_inner()),
+                        id: self.id,
+                        reported: false,
+                    })),
+                };
+            };
+            s.before_acquire(self.id, Mode::Write, Location::caller());
+            match self.inner.try_write() {
+                Ok(g) => Ok(RwLockWriteGuard { inner: Some(g), id: self.id, reported: true }),
+                Err(TryLockError::Poisoned(e)) => Err(PoisonError::new(RwLockWriteGuard {
+                    inner: Some(e.into_inner()),
+                    id: self.id,
+                    reported: true,
+                })),
+                Err(TryLockError::WouldBlock) => {
+                    eprintln!("VERIF-HARNESS-ERROR lock model out of sync (write {})", self.id);
+                    std::process::exit(2);
+                }
+            }
+        }
+    }
+
+    impl<T> Deref for RwLockReadGuard<'_, T> {
+        type Target = T;
+        fn deref(&self) -> &T {
+            self.inner.as_ref().expect("guard")
+        }
+    }
+
+    impl<T> Drop for RwLockReadGuard<'_, T> {
+        fn drop(&mut self) {
+            drop(self.inner.take());
+            if self.reported {
+                if let Some(s) = sched() {
+                    s.released(self.id, Mode::Read);
+                }
+            }
+        }
+    }
+
+    impl<T> Deref for RwLockWriteGuard<'_, T> {
+        type Target = T;
+        fn deref(&self) -> &T {
+            self.inner.as_ref().expect("guard")
+        }
+    }
+
+    impl<T> DerefMut for RwLockWriteGuard<'_, T> {
+        fn deref_mut(&mut self) -> &mut T {
+            self.inner.as_mut().expect("guard")
+        }
+    }
+
+    impl<T> Drop for RwLockWriteGuard<'_, T> {
+        fn drop(&mut self) {
+            drop(self.inner.take());
+            if self.reported {
+                if let Some(s) = sched() {
+                    s.released(self.id, Mode::Write);
+                }
+            }
+        }
+    }
+}
